@@ -278,8 +278,8 @@ func (api *API) mapEncodeStructFields(
 		if leftOut {
 			// the decoder can't know whether an inlined member is there if the member writes its map form itself (its
 			// keys are not known): it always reads such a member, which therefore can't be left out
-			if sField.settings.inlined && sField.settings.ts.fieldKey == nil && deRefPointers(sField.fType).Kind() != reflect.Map && hasJSONCodec(sField.fType) {
-				return ierrors.Errorf("inlined field %s has a JSON codec of its own and can't be left out of the map form", sField.name)
+			if sField.settings.inlined && sField.settings.ts.fieldKey == nil && deRefPointers(sField.fType).Kind() != reflect.Map && api.hasInlinedJSONCodec(sField.fType) {
+				return ierrors.Errorf("inlined field %s has (or inlines a member with) a JSON codec of its own and can't be left out of the map form", sField.name)
 			}
 
 			continue
@@ -460,6 +460,38 @@ func (api *API) collectValueKeys(value reflect.Value, keys map[string]struct{}, 
 			api.collectValueKeys(value.Field(sField.index), keys, append(depth, 0)...)
 		}
 	}
+}
+
+// hasInlinedJSONCodec returns whether the map form of the type is written by a JSON codec of its own, or whether one of
+// the members that are spliced into its map form (embedded or inlined structs, at any depth) is: the decoder always
+// reads such a member (its keys are not known), it can't be left out.
+func (api *API) hasInlinedJSONCodec(t reflect.Type, visitedTypes ...reflect.Type) bool {
+	if hasJSONCodec(t) {
+		return true
+	}
+	t = deRefPointers(t)
+	if t.Kind() != reflect.Struct || t == timeType || t == bigIntPtrType.Elem() {
+		return false
+	}
+	for _, visitedType := range visitedTypes {
+		if visitedType == t {
+			return false
+		}
+	}
+	visitedTypes = append(visitedTypes, t)
+
+	structFields, err := api.getStructFields(t)
+	if err != nil {
+		return false
+	}
+	for _, sField := range structFields {
+		spliced := (sField.isEmbedded && !sField.settings.inlined) || (sField.settings.inlined && sField.settings.ts.fieldKey == nil)
+		if spliced && deRefPointers(sField.fType).Kind() != reflect.Map && api.hasInlinedJSONCodec(sField.fType, visitedTypes...) {
+			return true
+		}
+	}
+
+	return false
 }
 
 // setUniqueKey sets the key of the map form of a struct. A key that is taken already (by the type code of the struct,
